@@ -47,6 +47,52 @@ impl C03 {
             },
         }
     }
+    /// The same stream delivered through a named pipe, cut inside the payload of randomly chosen records (for a two-byte payload that is
+    /// between its two bytes): `open(path)` must return what the reference decoder makes of the bytes.
+    fn check_pipe(&self, cx: &mut Cx, ast: &NLib, desc: &str) {
+        cx.eval();
+        let want = match ast_to_lib(ast) {
+            Some(l) => l,
+            None => return,
+        };
+        let bytes = encode(ast, &EncOpts::default()).out;
+        // record offsets
+        let mut offs = Vec::new();
+        let mut pos = 0;
+        while pos + 4 <= bytes.len() {
+            let l = u16::from_be_bytes([bytes[pos], bytes[pos + 1]]) as usize;
+            if l < 4 {
+                break;
+            }
+            offs.push((pos, l));
+            pos += l;
+        }
+        let with_payload: Vec<(usize, usize)> = offs.iter().cloned().filter(|(_, l)| *l > 5).collect();
+        if with_payload.is_empty() {
+            return;
+        }
+        let mut cuts: Vec<usize> = (0..1 + cx.rng.usize(3))
+            .map(|_| {
+                let (o, l) = *cx.rng.pick(&with_payload);
+                o + 5 + cx.rng.usize(l - 5)
+            })
+            .collect();
+        cuts.sort();
+        cuts.dedup();
+        cx.nontrivial(crate::rt::prng::byteshash(&bytes) ^ cuts.iter().fold(0u64, |a, c| a.wrapping_mul(31).wrapping_add(*c as u64)));
+        let path = cx.tmp("c03.pipe");
+        let r = with_fifo(&path, &bytes, &cuts, |p| guard(|| GdsLibrary::open(p)));
+        let detail = |what: String| json!({"case": desc, "what": what, "cuts": cuts, "bytes": render_bytes(&bytes)});
+        match r {
+            None => cx.count("named_pipe_unavailable"),
+            Some(Err(c)) => cx.violation(&format!("named-pipe|read-panic|{}|{}", c.site(), c.norm_msg()), detail(c.msg.clone())),
+            Some(Ok(Err(e))) => cx.violation(&format!("named-pipe|rejected|{}", err_class(&e)), detail(format!("{:?}", e).chars().take(300).collect())),
+            Some(Ok(Ok(got))) => match lib_diff(&want, &got) {
+                Some((class, at)) => cx.violation(&format!("named-pipe|misread|{}", class), detail(at)),
+                None => cx.count("read_ok_named_pipe"),
+            },
+        }
+    }
     fn unsupported_case(i: u64, rng: &mut Rng) -> (String, NLibOpt) {
         match i % 9 {
             0 => ("LIBDIRSIZE".into(), NLibOpt::LibDirSize(rand_i16(rng))),
@@ -84,6 +130,8 @@ impl Prop for C03 {
             GenSpec::random("random", tier.pick(200_000, 4_000_000)),
             GenSpec::random("trailing", tier.pick(2_000, 100_000)),
             GenSpec::random("random-file", tier.pick(500, 20_000)),
+            // the stream read from a named pipe that delivers it in pieces (a non-seekable, short-reading source)
+            GenSpec::random("named-pipe", tier.pick(160, 4_000)),
             GenSpec::random("unsupported", tier.pick(900, 45_000)),
             // one record between 32 KiB and the record limit, as another writer may emit
             GenSpec::random("big-records", tier.pick(24, 600)),
@@ -110,6 +158,11 @@ impl Prop for C03 {
                 let via_file = cx.gen == "random-file";
                 self.check(cx, &ast, &EncOpts::default(), via_file, "random stream");
                 cx.sample(|| json!({"stream_of": format!("{:?}", ast).chars().take(600).collect::<String>()}));
+            }
+            "named-pipe" => {
+                let ast = rand_lib(&mut cx.rng, &cfg);
+                self.check_pipe(cx, &ast, "random stream through a named pipe");
+                cx.sample(|| json!({"stream_of": format!("{:?}", ast).chars().take(300).collect::<String>()}));
             }
             "big-records" => {
                 let (ast, what) = big_record_lib(&mut cx.rng);
